@@ -71,6 +71,9 @@ func sortOf(t types.Type) (vkind, string) {
 	case *types.Slice:
 		return kSlice, sRef
 	case *types.Array:
+		if b, ok := u.Elem().Underlying().(*types.Basic); ok && b.Kind() == types.Uint8 {
+			return kScalar, sBlob // byte arrays (hashes, keys, addresses): identity values with byte access
+		}
 		k, es := sortOf(u.Elem())
 		if k == kScalar && !isObjectType(u.Elem()) {
 			return kScalar, arrSort(sInt, es)
@@ -165,6 +168,8 @@ func zeroTerm(sort string) Term {
 		return tNull
 	case sStr:
 		return Term{"str_empty", sStr}
+	case sBlob:
+		return Term{"blob_zero", sBlob}
 	case sReal:
 		return Term{"0.0", sReal}
 	}
